@@ -25,6 +25,7 @@ type Obligation struct {
 	Seq    int    // position in vc.items
 	Func   string
 	Canary bool // must be sat (vacuity guard)
+	Static string // "" | "holds" | "fails": decided syntactically by the generator, no solver involved
 	// filled by the solver stage
 	Result  string // unsat sat unknown timeout error
 	Solver  string
